@@ -33,7 +33,7 @@ def main():
                         break
                 res['checks'][c] = {'exit': p.returncode, 'violations': len(viol), 'fired': p.returncode != 0 and bool(viol),
                                     'no_failing_input_found_only': bool(viol) and all('no-failing-input-found' in v for v in viol),
-                                    'first': first, 'wall_s': round(time.time() - t0, 1)}
+                                    'first': first, 'wall_s': round(time.time() - t0, 1), 'tail': (p.stdout + p.stderr)[-600:] if (p.returncode != 0 and not viol) else ''}
             shutil.rmtree(evd, ignore_errors=True)
     finally:
         subprocess.run(['git', '-C', '/repo', 'worktree', 'remove', '--force', wt])
